@@ -372,6 +372,10 @@ class Engine:
                 return
             if isinstance(old, (Opaque, SeqFn, Closure, BoundMethod)):
                 return
+            if isinstance(old, tuple) and isinstance(new, tuple) and len(old) == len(new):
+                for i, (a, b) in enumerate(zip(old, new)):
+                    walk(f'{path}[{i}]', a, b, seen)
+                return
             if isinstance(old, PyList) and isinstance(new, PyList):
                 if len(old.items) != len(new.items):
                     self.oblige('frame', path, z3.BoolVal(False))
@@ -1371,10 +1375,40 @@ class Engine:
 
     def e_BoolOp(self, e):
         is_and = isinstance(e.op, ast.And)
+        if not is_and and len(e.values) == 2 and not self.in_spec:
+            # `x or y` used for its VALUE (default for None / 0): the first operand if it is truthy, else the second
+            a = self.eval(e.values[0])
+            av = a.val if isinstance(a, Opt) else a
+            if (isinstance(a, Opt) or (z3.is_expr(a) and z3.is_arith(a))) and z3.is_expr(zint(av)) and not z3.is_bool(av):
+                b = self.eval(e.values[1])
+                if isinstance(b, int) and not isinstance(b, bool) or (z3.is_expr(b) and z3.is_arith(b)):
+                    return z3.If(zbool(a), zint(av), zint(b))
+                raise Unsupported('value of `or` with a non-numeric default')
+            return self._boolop(e, is_and, first=a)
+        return self._boolop(e, is_and)
+
+    PURE_CALLS = {'len', 'isinstance', 'int', 'float', 'abs', 'min', 'max', 'str', 'getattr', 'hasattr', 'bool', 'round',
+                  'ord', 'chr', 'bytes', 'tuple', 'list', 'sorted', 'sum', 'repr', 'type'}
+
+    def _boolop(self, e, is_and, first=NotImplemented):
+        def impure(x):
+            return any(isinstance(n, ast.Call) and not (isinstance(n.func, ast.Name) and n.func.id in self.PURE_CALLS)
+                       for n in ast.walk(x))
+        if not self.in_spec and any(impure(x) for x in e.values[1:]):
+            # a later operand calls code that may have effects: it runs only if the earlier operands let it (a branch per
+            # operand, exactly Python's short-circuit evaluation)
+            for k, x in enumerate(e.values):
+                v = self.truth(first if (k == 0 and first is not NotImplemented) else self.eval(x))
+                if z3.is_expr(v) and (z3.is_true(z3.simplify(v)) or z3.is_false(z3.simplify(v))):
+                    v = z3.is_true(z3.simplify(v))
+                taken = v if isinstance(v, bool) else self.branch(v)
+                if taken != is_and:
+                    return not is_and
+            return is_and
         vals, pushed = [], 0
         try:
-            for x in e.values:
-                v = self.truth(self.eval(x))
+            for k, x in enumerate(e.values):
+                v = self.truth(first if (k == 0 and first is not NotImplemented) else self.eval(x))
                 if z3.is_true(v) or z3.is_false(v):
                     v = z3.is_true(v)        # a concrete operand (None, 0, '' ...) short-circuits as in Python
                 if isinstance(v, bool):
